@@ -45,6 +45,12 @@ def run(prop, tier, seed, plan, feature=None, module="MC_Gen", release_too=None,
             import random
             random.Random(seed).shuffle(runs)
             runs = runs[: item["sample"]]
+        if item.get("trigger_free"):
+            # programs whose ideal run uses a construct of a finding recorded for ANOTHER property (C08's try / finally findings) are
+            # that property's business: they are generated, counted and left out of this profile's comparison
+            nbefore = len(runs)
+            runs = [r for r in runs if not r["trig"]]
+            rep.add("programs_left_to_C08_findings", nbefore - len(runs))
         for r in runs:
             for t in r["trig"]:
                 trig_count[t] += 1
